@@ -13,6 +13,8 @@ Edge(th, k) == SumSeq(SubSeq(th, 1, k))                 \* upper boundary of sli
 (* the slice (1-based) whose half-open range [lower, upper) contains z *)
 SliceOf(th, z) == CHOOSE k \in 1..Len(th) : Edge(th, k - 1) <= z /\ z < Edge(th, k)
 
+SliceBelow(th, z) == CHOOSE k \in 1..Len(th) : Edge(th, k - 1) < z /\ z <= Edge(th, k)
+
 (* observed assignment: asg[a] = set of slices (1-based) in which atom a was found *)
 AssignmentFails(ev) ==
   IF ev.raised THEN {"raised"}
@@ -20,6 +22,11 @@ AssignmentFails(ev) ==
   \cup (IF \A a \in 1..Len(ev.z) : Len(ev.found[a]) = 1 THEN {} ELSE {"atom_not_in_exactly_one_slice"})
   \cup (IF \A a \in 1..Len(ev.z) : Len(ev.found[a]) # 1 \/ ev.found[a][1] = SliceOf(ev.th, ev.z[a]) THEN {} ELSE {"atom_in_wrong_slice_or_boundary_not_upper"})
   \cup (IF ev.reported_ok THEN {} ELSE {"reported_slice_thickness"})
+  \* atoms a hair (1e-9 length units: far above the 1e-12 nudge of the bin edges, far below anything physical) BELOW the lattice
+  \* height near_z[a] - below a slice boundary, below the top face (also given as z = -1e-9, which wraps there), and beside a lateral
+  \* face of the cell: each in exactly one slice, the one whose interval ends at or above that height
+  \cup (IF \A a \in 1..Len(ev.near_z) : Len(ev.near_found[a]) = 1 /\ ev.near_found[a][1] = SliceBelow(ev.th, ev.near_z[a])
+        THEN {} ELSE {"atom_just_below_a_boundary_or_face_not_in_its_slice"})
 Tol == 20000
 NumericFails(ev) ==
   IF ev.raised THEN {"raised"}
